@@ -331,7 +331,7 @@ func init() {
 		Required: []string{"programs", "identifiers", "bindings", "probes"},
 		Streams: []fw.Stream{
 			{Name: "probes", Quick: len(c04Probes), Thorough: len(c04Probes), Run: c04Probe},
-			{Name: "scope", Quick: 400000, Thorough: 12000000, Run: c04Run},
+			{Name: "scope", Quick: 400000, Thorough: 18000000, Run: c04Run},
 		},
 	})
 }
